@@ -42,6 +42,8 @@ def environments(tier):
             e["PYTHONHASHSEED"] = HASHSEEDS[k % len(HASHSEEDS)] if k < 8 else HASHSEEDS[(k * 3 + 1) % len(HASHSEEDS)]
             if k % 4 == 3:
                 e["PYOPT"] = ["O", "OO", "env", "O"][k // 4]     # assert statements compiled out
+            if k % 4 == 1:
+                e["VF_DECIMAL"] = ["prec=6", "prec=3;rounding=ROUND_UP", "prec=60", "prec=2"][k // 4]
             combos.append(e)
     else:
         for hs, lc in itertools.product(HASHSEEDS, LOCALES):
@@ -49,6 +51,8 @@ def environments(tier):
             e["PYTHONHASHSEED"] = hs
             if (len(combos) % 5) == 4:
                 e["PYOPT"] = ["O", "OO", "env"][len(combos) % 3]
+            if (len(combos) % 5) == 2:
+                e["VF_DECIMAL"] = ["prec=6", "prec=3;rounding=ROUND_UP", "prec=60", "prec=2"][len(combos) % 4]
             combos.append(e)
     return combos
 
@@ -91,6 +95,23 @@ def build_cases(seed, n_plain, n_fmt):
                                                   {"min": 0, "max": 1, "children": [{"name": "Opt", "rels": []}]}]}, "ctcs": []}
         cases.append({"spec": spec, "writers": ["uvl", "afm", "json", "splot", "exp"], "digest": S.digest(spec),
                       "kind": "wide-group"})
+    # floats in exponent notation, non-finite floats inside list/map values (ASCII names: no reader involved)
+    for k in range(3):
+        r = rand.rng(seed, "c12floats", k)
+        spec = rand.rand_model(r, r.randint(5, 9), n_ctcs=1, ctc_depth=1, ops=RT.LOG7, profile="wide")
+        fs = list(S.features(spec["root"]))
+        vals = [("eps", 1e-05), ("big", 1e16), ("tiny", 2.5e-10), ("huge", 1.2345678901234567e+30), ("bounds", [0.0, float("inf")]),
+                ("lim", {"hi": float("inf"), "lo": float("-inf"), "step": 1e-07}), ("ratio", 0.1 + 0.2)]
+        for j, (nm, v) in enumerate(r.sample(vals, 5)):
+            fs[j % len(fs)].setdefault("attrs", []).append({"name": nm, "value": v})
+        writers = ["uvl", "json"]
+        if k == 2:
+            owner = next(f for f in fs if f.get("attrs"))
+            spec["ctcs"].append({"name": "lit", "ast": ["GREATER", owner["name"] + "." + owner["attrs"][0]["name"], 2.5e-10]})
+            writers = ["uvl"]
+        # (UVL has no exponent notation and no non-finite numbers: C01 excludes such values, the text is not read back)
+        cases.append({"spec": spec, "writers": writers, "digest": S.digest(spec), "kind": "floats",
+                      "readable": {"uvl": False, "json": True}})
     for fname, fmt in RT.FORMATS.items():
         # (long XOR / mixed chains are exponential in the dependency's CNF conversion, which SPLOT uses)
         classes = [c for c in fmt.classes() if c[0] not in ("ctc:chain7-20", "ctc:chain17-70", "ctc:wide11-15")]
